@@ -2,6 +2,7 @@
   Helper lemmas for C02 (core Lean only).
 -/
 import SqlglotModel.Model.Transpile
+import SqlglotModel.Proofs.Bag
 
 namespace SqlglotModel.Transpile
 open SqlglotModel.Bag
@@ -148,5 +149,98 @@ theorem nullif0V_ne_err (v : DV) (h : v ≠ .err) : nullif0V v ≠ .err := by
 -- ------------------------------------------------------------------------------------------ LIMIT, rewrites
 theorem limit_roundtrip (f : LimitForm) (t : Table) : limitSem (genLimit (parseLimit f)) t = limitSem f t := by
   cases f <;> simp [parseLimit, genLimit, limitSem, limitOffset]
+
+-- ------------------------------------------------------------------------------------------ alias generation
+theorem findNewNameFrom_fresh (taken : List String) (base : String) (fuel i : Nat) (n : String)
+    (h : findNewNameFrom taken base fuel i = some n) : n ∉ taken := by
+  induction fuel generalizing i with
+  | zero => simp [findNewNameFrom] at h
+  | succ f ih =>
+    simp only [findNewNameFrom] at h
+    split at h
+    · exact ih (i + 1) h
+    · rename_i hc
+      simp only [Option.some.injEq] at h
+      subst h
+      simpa using hc
+
+theorem findNewName_fresh (taken : List String) (base n : String) (h : findNewName taken base = some n) :
+    n ∉ taken := by
+  unfold findNewName at h
+  split at h
+  · exact findNewNameFrom_fresh taken base _ _ n h
+  · rename_i hc
+    simp only [Option.some.injEq] at h
+    subst h
+    simpa using hc
+
+theorem hoistAliases_spec (base : String) (k : Nat) (taken names : List String)
+    (h : hoistAliases base taken k = some names) :
+    names.Nodup ∧ (∀ n ∈ names, n ∉ taken) ∧ names.length = k := by
+  induction k generalizing taken names with
+  | zero =>
+    simp only [hoistAliases, Option.some.injEq] at h
+    subst h
+    simp
+  | succ k ih =>
+    simp only [hoistAliases] at h
+    cases hf : findNewName taken base with
+    | none => simp [hf] at h
+    | some a =>
+      simp only [hf] at h
+      cases hr : hoistAliases base (taken ++ [a]) k with
+      | none => simp [hr] at h
+      | some rest =>
+        simp only [hr, Option.map_some, Option.some.injEq] at h
+        subst h
+        obtain ⟨hnd, hfresh, hlen⟩ := ih (taken ++ [a]) rest hr
+        have ha : a ∉ taken := findNewName_fresh taken base a hf
+        refine ⟨?_, ?_, by simp [hlen]⟩
+        · refine List.nodup_cons.mpr ⟨?_, hnd⟩
+          intro hmem
+          exact hfresh a hmem (by simp)
+        · intro n hn
+          cases List.mem_cons.mp hn with
+          | inl h1 => subst h1; exact ha
+          | inr h2 =>
+            intro hin
+            exact hfresh n h2 (by simp [hin])
+
+-- ------------------------------------------------------------------------------------------ DISTINCT ON as ROW_NUMBER() = 1
+theorem rowNumberOneAux_eq (key : Row → Val) (t : Table) (pre : Table) (seen : List Val)
+    (h : ∀ v, seen.contains v = pre.any (fun p => key p == v)) :
+    rowNumberOneAux key pre t = firstPerKeyAux key seen t := by
+  induction t generalizing pre seen with
+  | nil => rfl
+  | cons r rs ih =>
+    simp only [rowNumberOneAux, firstPerKeyAux]
+    have hcount : ((pre.filter (fun p => key p == key r)).length + 1 == 1) = !(seen.contains (key r)) := by
+      rw [h (key r)]
+      cases hf : pre.filter (fun p => key p == key r) with
+      | nil =>
+        have : pre.any (fun p => key p == key r) = false := by
+          rw [← not_isEmpty_filter_eq_any, hf]; rfl
+        simp [this]
+      | cons x xs =>
+        have : pre.any (fun p => key p == key r) = true := by
+          rw [← not_isEmpty_filter_eq_any, hf]; rfl
+        simp [this]
+    have hstep : ∀ v, (key r :: seen).contains v = (r :: pre).any (fun p => key p == v) := by
+      intro v
+      rw [List.contains_cons, List.any_cons, h v, BEq.comm]
+    rw [hcount]
+    cases hs : seen.contains (key r)
+    · simp only [Bool.not_false, if_true, Bool.false_eq_true, if_false]
+      rw [ih (r :: pre) (key r :: seen) hstep]
+    · simp only [Bool.not_true, Bool.false_eq_true, if_false, if_true]
+      have hstep' : ∀ v, seen.contains v = (r :: pre).any (fun p => key p == v) := by
+        intro v
+        rw [List.any_cons, ← h v]
+        by_cases hk : key r = v
+        · subst hk
+          rw [hs]; simp
+        · have : (key r == v) = false := by simpa using hk
+          rw [this]; simp
+      rw [ih (r :: pre) seen hstep']
 
 end SqlglotModel.Transpile
